@@ -377,7 +377,8 @@ fn c18_batches(tier: &str) -> Vec<Batch> {
 
 fn exec_c19_ctx(p: &Profile, cfg: &RunCfg) -> (RunOut, MonOut) {
     let (out, _w, _s) = run_sm(p, cfg);
-    let mon = c08::run(&out, "C19");
+    let mut mon = c08::run(&out, "C19");
+    c19::run(&out, &mut mon);
     (out, mon)
 }
 fn exec_c19_install(p: &Profile, cfg: &RunCfg) -> (RunOut, MonOut) {
@@ -386,6 +387,7 @@ fn exec_c19_install(p: &Profile, cfg: &RunCfg) -> (RunOut, MonOut) {
     // only the rules about stored times belong to C19 (the crash window between report and
     // clear is C18's known finding)
     mon.violations.retain(|v| !v.site.starts_with("double-report") && (v.rule == "C19.R1" || v.detail.contains("duration")));
+    c19::run(&out, &mut mon);
     (out, mon)
 }
 
